@@ -205,6 +205,8 @@ func runFlags(c *core.Ctx) []core.Obligation {
 	} else {
 		obs = append(obs, core.Ob("R-FLAGS", "encodePointsCompressed:off-centre-guard", "-", "", core.Violated, "unresolved anchor"))
 	}
+	obs = append(obs, flagControlsOptionalPart(c), uvarintFastPath(c))
+	obs = append(obs, flagWordOrdered(c)...)
 	return obs
 }
 
@@ -296,6 +298,7 @@ func runVertexSym(c *core.Ctx) []core.Obligation {
 				fmt.Sprintf("OrderedCCW(%s) is not the image of the a==c case (expected OrderedCCW(%s)): the rule would depend on which edge is called AB and in which direction it is traversed", strings.Join(vc.args, ", "), strings.Join(want, ", "))))
 		}
 	}
+	obs = append(obs, edgeOrVertexArgs(c))
 	return obs
 }
 
@@ -666,6 +669,7 @@ func runIdle(c *core.Ctx) []core.Obligation {
 		obs = append(obs, core.Ob("R-IDLE", "applyUpdatesInternal:idle-reapplication", c.Pos(fn.Pos()), core.FuncName(fn), core.Discharged,
 			"applyUpdatesInternal writes the reader-visible cell list / map only through its per-shape and per-face work, so a re-application with nothing pending leaves them untouched"))
 	}
+	obs = append(obs, idleFaceNoop(c))
 	return obs
 }
 
@@ -1250,6 +1254,58 @@ func runConstRel(c *core.Ctx) []core.Obligation {
 	} else {
 		add("(*s2.EdgeQuery).initCovering:never-empty", "-", "", false, "", "unresolved anchor")
 	}
+	// (13) the nearly-antipodal test of ExpandForSubregions for a bound that straddles the equator multiplies the
+	// LARGER of the two pole gaps with the longitude gap (after round-8 seed C10-r8m2, `math.Max(s, n) * lngGap`
+	// turned into `(s + n) * lngGap`): the documented condition is maxLatGap * lngGap < 1.765e-15; with the sum the
+	// product is up to twice as large, the full rectangle is returned for fewer bounds, and a sub-region with an edge
+	// between nearly antipodal vertices, whose own bound RectBounder widens to full, is no longer contained.
+	if fn := c.Fn("s2", "", "ExpandForSubregions"); fn != nil {
+		found, ok := false, false
+		core.AllInstrs(fn, func(in ssa.Instruction) {
+			bo, isBo := in.(*ssa.BinOp)
+			if !isBo || (bo.Op != token.LSS && bo.Op != token.LEQ) {
+				return
+			}
+			k, isK := bo.Y.(*ssa.Const)
+			if !isK || k.Value == nil {
+				return
+			}
+			f, _ := constant.Float64Val(constant.ToFloat(k.Value))
+			if f < 1.7e-15 || f > 1.8e-15 {
+				return
+			}
+			mul, isMul := bo.X.(*ssa.BinOp)
+			if !isMul || mul.Op != token.MUL {
+				return
+			}
+			// the branch with two gaps is the one whose factor is not a plain variable
+			for _, o := range []ssa.Value{mul.X, mul.Y} {
+				switch x := o.(type) {
+				case *ssa.Call:
+					if core.StaticCallee(x) != nil && core.StaticCallee(x).Name() == "Max" && len(x.Call.Args) == 2 {
+						// lngGap itself is math.Max(0, ...): the maximum of the two pole gaps has no constant argument
+						_, k0 := x.Call.Args[0].(*ssa.Const)
+						_, k1 := x.Call.Args[1].(*ssa.Const)
+						if !k0 && !k1 {
+							found, ok = true, true
+						}
+					}
+				case *ssa.BinOp:
+					if x.Op == token.ADD {
+						found = true
+					}
+				}
+			}
+		})
+		if !found {
+			add("ExpandForSubregions:equator-branch-uses-max-gap", c.Pos(fn.Pos()), core.FuncName(fn), false, "", "unresolved anchor: the product compared with 1.765e-15 in the equator-straddling branch was not found")
+		} else {
+			add("ExpandForSubregions:equator-branch-uses-max-gap", c.Pos(fn.Pos()), core.FuncName(fn), ok, "the larger pole gap times the longitude gap is compared with 1.765e-15",
+				"the equator-straddling branch multiplies the SUM of the two pole gaps with the longitude gap, not the larger one: the documented threshold applies to maxLatGap * lngGap, so for a bound that comes equally close to both poles the full rectangle is returned only for half the range it must cover, and Loop.Contains answers false for a contained loop with nearly antipodal vertices")
+		}
+	} else {
+		add("ExpandForSubregions:equator-branch-uses-max-gap", "-", "", false, "", "unresolved anchor")
+	}
 	_ = sort.Strings
 	return obs
 }
@@ -1373,4 +1429,125 @@ func stableBoundPairs(fn *ssa.Function) (bool, string) {
 	}
 	_ = pair{}
 	return true, ""
+}
+
+// flagControlsOptionalPart (after round-8 seed C09-r8m1, the bound written when len(vertices) > 64 while the flag is set
+// when len(vertices) >= 64): the compressed loop format has an optional trailing bound, announced by a bit of the
+// properties word. The reader decides from that bit; the writer must decide from the very word it has just written,
+// not from a second evaluation of the threshold - two evaluations can disagree (here: at exactly 64 vertices the bit
+// says "bound follows" and none is written, so the reader eats the next loop's bytes).
+func flagControlsOptionalPart(c *core.Ctx) core.Obligation {
+	const construct = "(*s2.Loop).encodeCompressed:bound-written-iff-flag-written"
+	fn := c.Fn("s2", "Loop", "encodeCompressed")
+	if fn == nil {
+		return core.Ob("R-FLAGS", construct, "-", "", core.Violated, "unresolved anchor")
+	}
+	// the properties word: the result of compressedEncodingProperties()
+	var props ssa.Value
+	var enc *ssa.Call
+	core.AllInstrs(fn, func(in ssa.Instruction) {
+		call, ok := in.(*ssa.Call)
+		if !ok || core.StaticCallee(call) == nil {
+			return
+		}
+		switch core.StaticCallee(call).Name() {
+		case "compressedEncodingProperties":
+			props = call
+		case "encode":
+			if len(call.Call.Args) > 0 {
+				if fr, ok := core.AsFieldAddr(call.Call.Args[0]); ok && fr.Name == "bound" {
+					enc = call
+				} else if fr, ok := core.AsFieldLoad(call.Call.Args[0]); ok && fr.Name == "bound" {
+					enc = call
+				}
+			}
+		}
+	})
+	if props == nil || enc == nil {
+		return core.Ob("R-FLAGS", construct, c.Pos(fn.Pos()), core.FuncName(fn), core.Violated, "unresolved anchor: the properties word or the write of the bound was not found")
+	}
+	for _, b := range fn.Blocks {
+		ifi, ok := b.Instrs[len(b.Instrs)-1].(*ssa.If)
+		if !ok {
+			continue
+		}
+		bo, ok := ifi.Cond.(*ssa.BinOp)
+		if !ok || (bo.Op != token.NEQ && bo.Op != token.EQL) {
+			continue
+		}
+		and, ok := bo.X.(*ssa.BinOp)
+		if !ok || and.Op != token.AND || (and.X != props && and.Y != props) {
+			continue
+		}
+		side := 0
+		if bo.Op == token.EQL {
+			side = 1
+		}
+		if core.EdgeDominates(core.Edge{From: b, Idx: side}, enc.Block()) {
+			return core.Ob("R-FLAGS", construct, c.Pos(fn.Pos()), core.FuncName(fn), core.Discharged, "the bound is written exactly when the bit of the properties word that was written says so")
+		}
+	}
+	return core.Ob("R-FLAGS", construct, c.Pos(enc.Pos()), core.FuncName(fn), core.Violated,
+		"whether the bound is written is not decided by a bit of the properties word returned by compressedEncodingProperties(): the reader goes by that bit, so wherever the writer's own condition and the bit disagree (one vertex count at a threshold is enough) the stream has a bound the reader does not expect, or lacks one it does, and everything after it is misparsed")
+}
+
+// uvarintFastPath (after round-8 seed C09-r8m2, a one-byte fast path in writeUvarint guarded by x <= 0x80): a uvarint
+// byte carries 7 bits, so a value fits in one byte only below 128; 128 itself written as the single byte 0x80 is read
+// back as a continuation byte. Any write in writeUvarint that does not go through binary.PutUvarint must be behind
+// x < 128 (or x <= 127).
+func uvarintFastPath(c *core.Ctx) core.Obligation {
+	const construct = "(*s2.encoder).writeUvarint:one-byte-path-below-128"
+	fn := c.Fn("s2", "encoder", "writeUvarint")
+	if fn == nil {
+		return core.Ob("R-FLAGS", construct, "-", "", core.Violated, "unresolved anchor")
+	}
+	put := false
+	var direct []*ssa.Call
+	core.AllInstrs(fn, func(in ssa.Instruction) {
+		call, ok := in.(*ssa.Call)
+		if !ok || core.StaticCallee(call) == nil {
+			return
+		}
+		switch core.StaticCallee(call).Name() {
+		case "PutUvarint", "AppendUvarint":
+			put = true
+		case "writeUint8", "WriteByte":
+			direct = append(direct, call)
+		}
+	})
+	if !put {
+		return core.Ob("R-FLAGS", construct, c.Pos(fn.Pos()), core.FuncName(fn), core.Violated, "writeUvarint no longer encodes through encoding/binary")
+	}
+	for _, d := range direct {
+		ok := false
+		for _, b := range fn.Blocks {
+			ifi, isIf := b.Instrs[len(b.Instrs)-1].(*ssa.If)
+			if !isIf {
+				continue
+			}
+			bo, isBo := ifi.Cond.(*ssa.BinOp)
+			if !isBo {
+				continue
+			}
+			k, isK := core.ConstInt(bo.Y)
+			if _, isP := bo.X.(*ssa.Parameter); !isP || !isK {
+				continue
+			}
+			side := -1
+			switch {
+			case bo.Op == token.LSS && k <= 128, bo.Op == token.LEQ && k <= 127:
+				side = 0
+			case bo.Op == token.GEQ && k <= 128, bo.Op == token.GTR && k <= 127:
+				side = 1
+			}
+			if side >= 0 && core.EdgeDominates(core.Edge{From: b, Idx: side}, d.Block()) {
+				ok = true
+			}
+		}
+		if !ok {
+			return core.Ob("R-FLAGS", construct, c.Pos(d.Pos()), core.FuncName(fn), core.Violated,
+				"a value is written as a single raw byte on a path that is not limited to values below 128: a uvarint byte holds 7 bits, so 128 written as 0x80 is read back as a continuation byte and every later field of the stream is misaligned (a loop of 128 vertices, a polygon of 128 loops, a run of 21 vertices on face 2 all produce exactly that value)")
+		}
+	}
+	return core.Ob("R-FLAGS", construct, c.Pos(fn.Pos()), core.FuncName(fn), core.Discharged, fmt.Sprintf("encoded by encoding/binary; %d single-byte shortcut(s), each below 128", len(direct)))
 }
